@@ -170,3 +170,31 @@ Theorem C15_attach_detach_keep_balances :
     credited evs = 0 ∧ debited evs = 0.
 Proof. exact attach_detach_keep_balances. Qed.
 Print Assumptions C15_attach_detach_keep_balances.
+
+(** A detach removes exactly the named (account, pool) links; every other link of every
+    account stays, in the order in which it was attached. *)
+Theorem C15_detach_preserves_order :
+  ∀ s es s' evs r,
+    inv s → step s (Detach es) = (s', (evs, r)) →
+    (r = RErr → ∀ a, links s' a = links s a) ∧
+    (r ≠ RErr → ∀ a, links s' a = filter (λ q, (a, q) ∉ link_pairs es) (links s a)).
+Proof. exact detach_preserves_order. Qed.
+Print Assumptions C15_detach_preserves_order.
+
+Theorem C15_detach_single_link :
+  ∀ s e s' evs r a p pre post,
+    inv s → step s (Detach [e]) = (s', (evs, r)) → r ≠ RErr →
+    e_acct e = a → e_pool e = p → links s a = pre ++ p :: post →
+    links s' a = pre ++ post ∧ ∀ b, b ≠ a → links s' b = links s b.
+Proof. exact detach_single_link. Qed.
+Print Assumptions C15_detach_single_link.
+
+(** An attach never reorders: the old links stay a prefix, and exactly the requested links
+    are added behind them. *)
+Theorem C15_attach_appends :
+  ∀ s es s' evs r,
+    step s (Attach es) = (s', (evs, r)) →
+    ∀ a, links s a `prefix_of` links s' a ∧
+         ∀ q, q ∈ links s' a ↔ q ∈ links s a ∨ (r ≠ RErr ∧ (a, q) ∈ link_pairs es).
+Proof. exact attach_appends. Qed.
+Print Assumptions C15_attach_appends.
